@@ -166,8 +166,8 @@ let gl_of_state (s : string) = match split s with
   | _ -> None
 
 (* compare the model's step under oracle count [on] with the record; None = agrees *)
-let attempt cfg w (r : record) op on : (world * out) option * string option =
-  let t = { t_op = op; t_on = on; t_perm = r.perm; t_qperm = r.qperm } in
+let attempt cfg w (r : record) op (on, tomb) : (world * out) option * string option =
+  let t = { t_op = op; t_on = on; t_tomb = tomb; t_perm = r.perm; t_qperm = r.qperm } in
   let w0 = set_world_fuse r.fuse w in
   match step_caught cfg w0 t with
   | Inr f -> (None, Some ("model FAULT " ^ fault_name f))
@@ -196,26 +196,28 @@ let run_record cfg w (r : record) : (world, string) result =
   let op = parse_op { l = r.op } in
   (match r.op with k :: _ -> Hashtbl.replace opkinds k (1 + try Hashtbl.find opkinds k with Not_found -> 0) | [] -> ());
   incr total_ops;
-  let first = attempt cfg w r op N0 in
+  let first = attempt cfg w r op (N0, N0) in
   let accept w' o = if !verbose then Printf.printf "  #%d %s => %s\n" r.line (join r.op) (str_out o); Stdlib.Ok w' in
   match first with
   | (Some (w', o), None) -> accept w' o
   | (_, Some d0) ->
     (* the oracle count is not recorded: infer it from the growth_left difference, then try a few *)
+    (* growth_left seen by the hook minus the model's under (0, 0) gives reuses - tombstones *)
     let cands =
       (match first with
        | (Some (w', _), _) ->
          List.concat_map (fun (slot, obs) ->
              match slot_of w' slot, gl_of_state obs with
              | Some m, Some g -> let (((ml, mc), _), _) = summary m in
-               let d = abs (g - (int_of_n mc - int_of_n ml)) in if d > 0 then [d] else []
+               let d = g - (int_of_n mc - int_of_n ml) in
+               if d > 0 then [(d, 0)] else if d < 0 then [(0, -d)] else []
              | _ -> []) r.states
-       | _ -> []) @ [1; 2; 3; 4] in
+       | _ -> []) @ [(1, 0); (0, 1); (1, 1); (2, 0); (0, 2); (2, 1); (1, 2); (3, 0); (0, 3)] in
     let rec go = function
       | [] -> Stdlib.Error d0
-      | c :: rest ->
+      | (a, b) :: rest ->
         incr total_oracle_retries;
-        (match attempt cfg w r op (n_of_int c) with
+        (match attempt cfg w r op (n_of_int a, n_of_int b) with
          | (Some (w', o), None) -> accept w' o
          | _ -> go rest) in
     go cands
